@@ -247,8 +247,24 @@ def gen_compat(src, one, num):
             L.append(f"Definition {nm}_PLUMBS_{opt.upper()} : bool := {'true' if n == 1 else 'false'}.")
     return L
 
+
+def gen_merge_tool(src, one, num):
+    """bigwigmerge.rs: the descriptor budget and the output-name suffixes / --output-type spellings (C15)."""
+    t = src("bigtools/src/utils/cli/bigwigmerge.rs")
+    lines = ["", "(* bigwigmerge.rs: descriptor budget and output-name recognition (C15) *)"]
+    lines.append("Definition MERGE_MAX_FDS : N := %d." % num(one(t, r"const MAX_FDS: usize = (\d+);", "bigwigmerge MAX_FDS")))
+    lines.append("Definition MERGE_PARALLEL_CHROMS : N := %d." % num(one(t, r"const PARALLEL_CHROMS: usize = (\d+);", "bigwigmerge PARALLEL_CHROMS")))
+    # the shape of the budget formula is anchored as a whole: MAX_FDS - 1 - 1 - (1 + 1 + max_zooms + max_zooms) * PARALLEL_CHROMS
+    one(t, r"let max_bw_fds: usize = MAX_FDS\s*- 1 /\*[^*]*\*/\s*- 1 /\*[^*]*\*/\s*- \(1 /\*[^*]*\*/ \+ 1\s*/\*[^*]*\*/ \+ max_zooms /\*[^*]*\*/ \+ max_zooms /\*[^*]*\*/\) \* PARALLEL_CHROMS;", "bigwigmerge max_bw_fds formula")
+    sfx = [m for m in __import__("re").findall(r'to_lowercase\(\)\s*\.ends_with\("([^"]+)"\)', t)]
+    if sorted(sfx) != sorted([".bw", ".bigwig", ".bedgraph"]):
+        die("bigwigmerge output suffixes changed: %r" % (sfx,))
+    for name, lit in (("MERGE_SUFFIX_BW", ".bw"), ("MERGE_SUFFIX_BIGWIG", ".bigwig"), ("MERGE_SUFFIX_BEDGRAPH", ".bedgraph")):
+        lines.append("Definition %s : list N := %s." % (name, coq_bytes(lit.encode())))
+    return lines
+
 # Register further table generators here; each is independent of the others.
-GENERATORS = [gen_autosql, gen_compat]
+GENERATORS = [gen_autosql, gen_compat, gen_merge_tool]
 
 def extra(src, one, num):
     lines = []
